@@ -11,7 +11,10 @@ from .core import MachineryError, run_tlc
 from .env import Conn, LoggerStub, boot
 
 NULL = {'k': 'null'}
-STRINGS = {'ab': 'ab', 'xyz': 'xyz', 'toolong': 'toolong', 'nonascii': 'né'}
+STRINGS = {'ab': 'ab', 'xyz': 'xyz', 'toolong': 'toolong', 'nonascii': 'né',
+           # base64 texts of n bytes (Dispatch.tla SB(n))
+           'b64_0': '', 'b64_1': 'AQ==', 'b64_2': 'AQI=', 'b64_3': 'AQID', 'b64_4': 'AQIDBA=='}
+SCALE = 0.5             # gamma of datainfo "scaled": ScaledInteger(SCALE, ..); abstract values are the transported integers
 RSTRINGS = {v: k for k, v in STRINGS.items()}
 EPS = 1 + 5e-8          # inside FloatRange's default relative tolerance of 1.2e-7
 
@@ -41,6 +44,28 @@ def conc(p):
     raise MachineryError(f'unknown abstract value {p!r}')
 
 
+def internal(dt, p):
+    """abstract value -> the value a driver / a class definition holds for datainfo dt"""
+    t = dt['t']
+    if p['k'] == 'null':
+        return None
+    if t == 'scaled':
+        return conc(p) * SCALE
+    if t == 'blob':
+        import base64
+        return base64.b64decode(conc(p))
+    if t == 'array':
+        return [internal(dt['el'], x) for x in p['xs']]
+    if t == 'tuple':
+        return [internal(e, x) for e, x in zip(dt['els'], p['xs'])]
+    if t == 'limits':
+        return [internal(dt['el'], x) for x in p['xs']]
+    if t == 'struct':
+        mem = {m['name']: m['dt'] for m in dt['mem']}
+        return {e['key']: internal(mem[e['key']], e['val']) for e in p['kv']}
+    return conc(p)
+
+
 def build_dt(dt):
     """abstract datainfo -> frappy datatype"""
     from frappy import datatypes as D
@@ -55,6 +80,12 @@ def build_dt(dt):
         return D.StringType(dt['minc'], dt['maxc'], isUTF8=dt['utf8'])
     if t == 'bool':
         return D.BoolType()
+    if t == 'scaled':
+        return D.ScaledInteger(SCALE, dt['lo'] * SCALE, dt['hi'] * SCALE)
+    if t == 'blob':
+        return D.BLOBType(dt['minb'], dt['maxb'])
+    if t == 'limits':
+        return D.LimitsType(build_dt(dt['el']))
     if t == 'array':
         return D.ArrayOf(build_dt(dt['el']), dt['minlen'], dt['maxlen'])
     if t == 'tuple':
@@ -91,7 +122,12 @@ def abs_number(x):
 def abs_str(s):
     sid = RSTRINGS.get(s) or (s if s.isascii() and not s.startswith('u:') and '\\' not in s and '"' not in s
                               else 'u:' + s.encode().hex())
-    return {'k': 'str', 's': sid, 'len': len(s), 'ascii': s.isascii()}
+    try:
+        import base64
+        b64 = len(base64.b64decode(s, validate=True))
+    except Exception:
+        b64 = -1
+    return {'k': 'str', 's': sid, 'len': len(s), 'ascii': s.isascii(), 'b64': b64}
 
 
 def abs_value(dt, v, wire=False):
@@ -113,6 +149,20 @@ def abs_value(dt, v, wire=False):
             return abs_str(v) if isinstance(v, str) else odd(v)
         if t == 'bool':
             return {'k': 'bool', 'b': v} if isinstance(v, bool) else odd(v)
+        if t == 'scaled':
+            if wire:
+                return abs_number(v) if isinstance(v, int) else odd(v)
+            k = v / SCALE
+            return abs_number(int(k)) if isinstance(v, float) and k == int(k) else odd(v)
+        if t == 'blob':
+            if wire:
+                return abs_str(v) if isinstance(v, str) else odd(v)
+            import base64
+            return abs_str(base64.b64encode(v).decode()) if isinstance(v, bytes) else odd(v)
+        if t == 'limits':
+            if not isinstance(v, list if wire else tuple) or len(v) != 2:
+                return odd(v)
+            return {'k': 'list', 'xs': [abs_value(dt['el'], x, wire) for x in v]}
         if t == 'array':
             if not isinstance(v, list if wire else tuple):
                 return odd(v)
@@ -140,14 +190,25 @@ def _mk_write(attr, acc):
     drv, ret = acc['drv'], acc['ret']
 
     def write(self, value):
-        self.vlog.append(('drv', attr, value))
+        self.vlog.append(('write', attr, value))
         if drv == 'same':
             return value
         if drv == 'fixed':
-            return conc(ret)
+            return internal(acc['dt'], ret)
+        if drv == 'raise':
+            from frappy.errors import HardwareError
+            raise HardwareError('scripted hardware failure')
         return None
     write.__name__ = 'write_' + attr
     return write
+
+
+def _mk_read(attr, acc):
+    def read(self):
+        self.vlog.append(('read', attr, None))
+        return internal(acc['dt'], acc['rret'])
+    read.__name__ = 'read_' + attr
+    return read
 
 
 def _mk_check(attr, acc, hook, own_limits=False):
@@ -173,43 +234,108 @@ def _mk_check(attr, acc, hook, own_limits=False):
 
 
 def _mk_cmd(attr, acc):
+    """-> (Command accessible for the base class, plain function overriding it in the derived class or None)"""
     from frappy.modules import Command
     ret = conc(acc['ret'])
     arg = acc['arg']
-    kw = {'description': 'c', 'export': _export(attr, acc)}
+    override = bool(acc.get('override'))       # a method of the same name, without decorator, in the derived class
+
+    def make(tag):
+        if arg['t'] == 'none':
+            def func(self):
+                self.vlog.append(('cmd', tag, None))
+                return ret
+        elif arg['t'] == 'struct':
+            names = [m['name'] for m in arg['mem']]
+            sig = ', '.join(n + ('=None' if n in arg['opt'] else '') for n in names)
+            ns = {}
+            exec(f'def func(self, *, {sig}):\n'  # Command() compares the signature with the struct members
+                 f'    self.vlog.append(("cmd", {tag!r}, {{k: v for k, v in dict({", ".join(n + "=" + n for n in names)}).items()'
+                 f' if v is not None}}))\n    return RET', {'RET': ret}, ns)
+            func = ns['func']
+        elif arg['t'] == 'tuple':
+            def func(self, *args):
+                self.vlog.append(('cmd', tag, tuple(args)))
+                return ret
+        else:
+            def func(self, value):
+                self.vlog.append(('cmd', tag, value))
+                return ret
+        func.__name__ = attr
+        func.__doc__ = 'c'
+        return func
+
+    export = _export(attr, acc)
+    base_func = make(attr + '@base' if override else attr)
+    over = make(attr) if override else None
+    if arg['t'] == 'none' and acc['ret'] == NULL and export is True and not override:
+        return Command(base_func), None                # the bare decorator: @Command
+    kw = {'description': 'c', 'export': export}
     if acc['ret'] != NULL:
         from frappy.datatypes import IntRange
         kw['result'] = IntRange()
     if arg['t'] == 'none':
-        def func(self):
-            self.vlog.append(('drv', attr, None))
-            return ret
-        func.__name__ = attr
-        return Command(**kw)(func)
-    if arg['t'] == 'struct':
-        names = [m['name'] for m in arg['mem']]
-        sig = ', '.join(n + ('=None' if n in arg['opt'] else '') for n in names)
-        ns = {}
-        exec(f'def func(self, *, {sig}):\n'  # Command() compares the signature with the struct members
-             f'    self.vlog.append(("drv", {attr!r}, {{k: v for k, v in dict({", ".join(n + "=" + n for n in names)}).items()'
-             f' if v is not None}}))\n    return RET', {'RET': ret}, ns)
-        func = ns['func']
-    elif arg['t'] == 'tuple':
-        def func(self, *args):
-            self.vlog.append(('drv', attr, tuple(args)))
-            return ret
-    else:
-        def func(self, value):
-            self.vlog.append(('drv', attr, value))
-            return ret
-    func.__name__ = attr
-    return Command(build_dt(arg), **kw)(func)
+        return Command(**kw)(base_func), over
+    if arg['t'] == 'tuple' and len(arg['els']) == 2:    # "goodie": a tuple / list of datatypes is a TupleOf
+        return Command(tuple(build_dt(e) for e in arg['els']), **kw)(base_func), over
+    return Command(build_dt(arg), **kw)(base_func), over
+
+
+def class_level(acc):
+    """the accessible as the class defines it: acc['cls'] holds what differs from the final accessible
+    (wire, ro, lo / hi of a numeric datainfo); acc['via'] says who changes it ('cfg' | 'subclass')"""
+    c = acc.get('cls')
+    if not c:
+        return acc
+    res = dict(acc)
+    for k in ('wire', 'ro'):
+        if k in c:
+            res[k] = c[k]
+    if 'lo' in c or 'hi' in c:
+        res['dt'] = dict(acc['dt'], **{k: c[k] for k in ('lo', 'hi') if k in c})
+    return res
+
+
+def _final_props(attr, acc):
+    """property settings (for the configuration or for a re-declaration) that turn the class-level accessible
+    into the final one"""
+    c = acc.get('cls') or {}
+    res = {}
+    if 'wire' in c:
+        res['export'] = _export(attr, dict(acc, cls=None))
+    if 'ro' in c:
+        res['readonly'] = acc['ro']
+    scale = SCALE if acc['dt']['t'] == 'scaled' else 1
+    if 'lo' in c:
+        res['min'] = acc['dt']['lo'] * scale
+    if 'hi' in c:
+        res['max'] = acc['dt']['hi'] * scale
+    return res
+
+
+def module_cfg(accs):
+    """the configuration entries of a module instance for this shape"""
+    cfg = {}
+    for attr, acc in accs.items():
+        if acc['kind'] != 'param':
+            continue
+        entry = {}
+        if acc.get('cls') and acc.get('via', 'cfg') == 'cfg':
+            entry.update(_final_props(attr, acc))
+        if acc.get('initvia') == 'cfgvalue':
+            entry['value'] = internal(acc['dt'], acc['init'])
+        elif acc.get('initvia') == 'cfgdefault':
+            entry['default'] = internal(acc['dt'], acc['init'])
+        if entry:
+            cfg[attr] = entry
+    return cfg
 
 
 def _export(attr, acc):
-    w = acc.get('cls_wire', acc['wire'])      # cls_wire: exported by the class, hidden by the configuration
+    w = (acc.get('cls') or {}).get('wire', acc['wire'])      # the class-level name
     if w == '':
         return False
+    boot()
     from frappy.params import PREDEFINED_ACCESSIBLES
     if w == attr and attr in PREDEFINED_ACCESSIBLES or w == '_' + attr:
         return True
@@ -272,24 +398,46 @@ def build_class(accs, base='Module', feats=()):
     body = {'B': {}, 'M': {}, 'X': {}, 'D': {}}     # MRO: D(erived), X (plain mixin), M(iddle), B(ase)
     for attr, acc in accs.items():
         if acc['kind'] == 'cmd':
-            body['B'][attr] = _mk_cmd(attr, acc)
+            body['B'][attr], over = _mk_cmd(attr, acc)
+            if over:
+                body['D'][attr] = over
             continue
         if acc.get('islimit') or acc.get('feature'):
             continue                    # limit parameters below; feature parameters come with their mixin
-        kw = {'readonly': acc['ro'], 'export': _export(attr, acc)}
+        cl = class_level(acc)
+        dt = acc['dt']
+        kw = {'readonly': cl['ro'], 'export': _export(attr, acc)}
+        via = acc.get('initvia', 'default')
         if acc['const'] != NULL:
-            kw['constant'] = conc(acc['const'])
-        else:
-            kw['default'] = conc(acc['init'])
+            kw['constant'] = internal(dt, acc['const'])
+        elif via == 'value':
+            kw['value'] = internal(dt, acc['init'])           # Parameter(.., value=..)
+        elif via == 'default':
+            kw['default'] = internal(dt, acc['init'])
+        else:                                                 # the start value comes from elsewhere
+            kw['default'] = internal(dt, acc['ret'])
+            if via == 'bare':
+                body['D'][attr] = internal(dt, acc['init'])   # a bare value assigned in the derived class
         if acc.get('unit'):
             kw['unit'] = acc['unit']          # '$' stands for the unit of the module's value
-        body['B'][attr] = M.Parameter('p', build_dt(acc['dt']), **kw)
+        body['B'][attr] = M.Parameter('p', build_dt(cl['dt']), **kw)
+        if acc.get('cls') and acc.get('via') == 'subclass':
+            body['D'][attr] = M.Parameter(**_final_props(attr, acc))     # re-declared in the derived class
         if acc['drv'] != 'absent':
             body['B']['write_' + attr] = _mk_write(attr, acc)
+        if acc.get('rd', 'absent') != 'absent':
+            body['B']['read_' + attr] = _mk_read(attr, acc)
         for h in acc['hooks']:
             if h['at'] != 'LIMIT':
                 body[h['at']]['check_' + attr] = _mk_check(attr, acc, h, own_limits=(
                     acc['lim']['kind'] != 'none' and h['at'] == acc.get('level', 'X')))
+    # accessibles that must NOT exist: optional ones nobody implements, and one a derived class removes
+    from frappy.datatypes import IntRange
+    if not set(accs) & {'popt', 'copt', 'prem'}:
+        body['B']['popt'] = M.Parameter('o', IntRange(0, 8), optional=True)
+        body['B']['copt'] = M.Command(optional=True, description='o')
+        body['B']['prem'] = M.Parameter('r', IntRange(0, 8), default=1, readonly=False)
+        body['D']['prem'] = None
     for attr, acc in accs.items():                  # limit parameters after the parameters they limit
         if acc['kind'] == 'param' and acc.get('islimit'):
             ex = _export(attr, acc)     # Limit(export=True) is not Limit(): frappy re-derives the name
@@ -359,6 +507,11 @@ def handle(dispatcher, conn, msg):
         return ('error_' + msg[0], msg[1], ['InternalError', repr(err), {}])
 
 
+def wire_of(req):
+    """Dispatch.tla WireOf: a bare module specifier addresses target (change) / value (read)"""
+    return req['name'] or ('target' if req['act'] == 'change' else 'value' if req['act'] == 'read' else '')
+
+
 class World:
     """real modules for the exported modules of `shape` plus an unexported module 'h'
     of the same class, a real dispatcher, one activated connection"""
@@ -371,8 +524,7 @@ class World:
         for mname, accs in shape.items():
             cls = build_class(accs, (bases or {}).get(mname, 'Module'), (feats or {}).get(mname, ()))
             first = first or cls
-            self.mods[mname] = self._add(cls, mname, {a: {'export': False} for a, acc in accs.items()
-                                                      if 'cls_wire' in acc})
+            self.mods[mname] = self._add(cls, mname, module_cfg(accs))
         self.hidden = self._add(first, 'h', {'export': False})
         self.conn = Conn('c1', self.srv.dispatcher)
         handle(self.srv.dispatcher, self.conn, ('activate', None, None))
@@ -407,7 +559,7 @@ class World:
         for mname, vals in cache.items():
             for a, v in vals.items():
                 if cur[mname][a] != v:
-                    self.mods[mname].announceUpdate(a, conc(v))
+                    self.mods[mname].announceUpdate(a, internal(self.shape[mname][a]['dt'], v))
         del self.conn.msgs[:]
         return self.cache() == cache
 
@@ -416,9 +568,9 @@ class World:
         for m in list(self.mods.values()) + [self.hidden]:
             del m.vlog[:]
         del self.conn.msgs[:]
-        spec = f"{req['mod']}:{req['name']}"
+        spec = f"{req['mod']}:{req['name']}" if req['name'] else req['mod']      # bare module: target / value
         rep = handle(self.srv.dispatcher, self.conn, (req['act'], spec, conc(req['payload'])))
-        a, acc = self.acc_by_wire(req['mod'], req['name'])
+        a, acc = self.acc_by_wire(req['mod'], wire_of(req))
         obs = {'value': NULL}
         if rep[0].startswith('error_'):
             obs['cls'] = rep[2][0]
@@ -436,12 +588,15 @@ class World:
         for mname, m in list(self.mods.items()) + [('h', self.hidden)]:
             for kind, attr, arg in m.vlog:
                 sacc = self.shape.get(mname, {}).get(attr)
-                if sacc is None:          # something was invoked on the hidden module
-                    calls.append({'fn': mname + '.' + attr, 'arg': odd(arg)})
+                if sacc is None:          # invoked on the hidden module, or the overridden base version of a command
+                    calls.append({'op': kind, 'fn': mname + '.' + attr, 'arg': odd(arg)})
                     continue
                 dt = sacc['dt'] if sacc['kind'] == 'param' else sacc['arg']
-                av = NULL if dt['t'] == 'none' else abs_value(dt, arg)
-                (calls if kind == 'drv' else hooks).append({'fn': attr, 'arg': av} if kind == 'drv' else av)
+                av = NULL if dt['t'] == 'none' or kind == 'read' else abs_value(dt, arg)
+                if kind == 'hook':
+                    hooks.append(av)
+                else:
+                    calls.append({'op': kind, 'fn': attr, 'arg': av})
         obs['calls'] = calls
         obs['hookargs'] = hooks
         upd = []
@@ -508,18 +663,23 @@ def payload_class(p, cur=None, dt='none'):
 def signature(world_shape, req, bad, obs, cur_cache, module='Dispatch'):
     acc = None
     for a, x in world_shape.get(req['mod'], {}).items():
-        if x['wire'] == req['name'] and req['name']:
+        if x['wire'] == wire_of(req) and x['wire']:
             acc = (a, x)
     dt = 'none'
     cur = None
     flags = 'unknown-name'
-    if any(x.get('cls_wire') == req['name'] for x in world_shape.get(req['mod'], {}).values()):
-        flags = 'cfg-hidden'
+    if any((x.get('cls') or {}).get('wire') == req['name'] != x['wire'] for x in world_shape.get(req['mod'], {}).values()):
+        flags = 'cfg-hidden'      # the name the class gave, renamed or hidden by configuration / subclass
     if acc:
         a, x = acc
         dt = (x['dt'] if x['kind'] == 'param' else x['arg'])['t']
         cur = cur_cache.get(req['mod'], {}).get(a)
         flags = x['kind'] + (':const' if x.get('const', NULL) != NULL else ':ro' if x.get('ro') else '')
+        c = x.get('cls') or {}
+        if x.get('via') == 'cfg' and 'wire' in c and _export(a, dict(x, cls=None)) is True:
+            flags = 'cfg-export-true'         # the configuration says export=True where the class says otherwise
+        elif x.get('via') == 'cfg' and c.get('ro') is True and not x['ro'] and x['drv'] == 'absent':
+            flags = 'cfg-writable-nodriver'   # the configuration says readonly=False, the class has no write function
     return {'module': module, 'clause': bad[0], 'act': req['act'], 'target': flags, 'dt': dt,
             'payload': payload_class(req['payload'], cur, dt), 'clamped': _has_eps(req['payload']),
             'obs': obs['cls']}
@@ -571,10 +731,20 @@ def sval(s):
     return abs_str(STRINGS.get(s, s))
 
 
-def rand_dt(rnd, depth=1, kinds=('double', 'int', 'enum', 'string', 'struct', 'array')):
+def _blob(n):
+    import base64
+    return abs_str(base64.b64encode(bytes(range(1, n + 1))).decode())
+
+
+def rand_dt(rnd, depth=1, kinds=('double', 'int', 'enum', 'string', 'struct', 'array', 'bool', 'scaled', 'blob')):
     t = rnd.choice(kinds)
-    if t in ('double', 'int'):
+    if t in ('double', 'int', 'scaled'):
         return {'t': t, 'lo': rnd.randint(-3, 2), 'hi': rnd.randint(4, 9)}
+    if t == 'bool':
+        return {'t': 'bool'}
+    if t == 'blob':
+        lo = rnd.randint(0, 2)
+        return {'t': 'blob', 'minb': lo, 'maxb': rnd.randint(lo + 1, 5)}
     if t == 'enum':
         names = rnd.sample(['a', 'b', 'c', 'd'], rnd.randint(1, 4))
         vals = rnd.sample(range(0, 7), len(names))
@@ -582,7 +752,7 @@ def rand_dt(rnd, depth=1, kinds=('double', 'int', 'enum', 'string', 'struct', 'a
     if t == 'string':
         lo = rnd.randint(0, 2)
         return {'t': 'string', 'minc': lo, 'maxc': rnd.randint(max(lo, 2), 7), 'utf8': rnd.random() < 0.3}
-    leaf = ('double', 'int', 'enum', 'string')
+    leaf = ('double', 'int', 'enum', 'string', 'bool', 'scaled')
     if t == 'array':
         lo = rnd.randint(0, 1)
         return {'t': 'array', 'el': rand_dt(rnd, 0, leaf), 'minlen': lo, 'maxlen': rnd.randint(lo + 1, 4)}
@@ -594,8 +764,15 @@ def rand_dt(rnd, depth=1, kinds=('double', 'int', 'enum', 'string', 'struct', 'a
 def rand_valid(rnd, dt, full=True):
     """a member of the value set of dt (abstract)"""
     t = dt['t']
-    if t == 'int':
+    if t in ('int', 'scaled'):
         return num(rnd.randint(dt['lo'], dt['hi']))
+    if t == 'bool':
+        return {'k': 'bool', 'b': rnd.random() < 0.5}
+    if t == 'blob':
+        return _blob(rnd.randint(dt['minb'], dt['maxb']))
+    if t == 'limits':
+        xs = sorted((rand_valid(rnd, dt['el']) for _ in range(2)), key=lambda x: 4 * x['n'] + {'num': 0, 'eps': 1, 'frac': 2}[x['k']])
+        return {'k': 'list', 'xs': xs}
     if t == 'double':
         n = rnd.randint(dt['lo'], dt['hi'])
         r = rnd.random()
@@ -628,8 +805,23 @@ def rand_payload(rnd, dt):
     """payload aimed at datainfo dt: valid, boundary, outside, wrong kind, partial, ..."""
     t = dt['t']
     r = rnd.random()
+    if t == 'bool':        # (0 and 1 are documented to be accepted as booleans: not in the alphabet)
+        return rand_valid(rnd, dt) if r > 0.3 else rnd.choice([w for w in WRONG if w != num(1)] + [num(3)])
     if r < 0.15:
         return rnd.choice(WRONG)
+    if t == 'blob':
+        if r < 0.5:
+            return _blob(max(0, rnd.choice([dt['minb'] - 1, dt['minb'], dt['maxb'], dt['maxb'] + 1])))
+        return rand_valid(rnd, dt) if r < 0.9 else sval(rnd.choice(['AQ=', 'A!ID', 'toolong!']))
+    if t == 'limits':
+        xs = [rand_payload(rnd, dt['el']) if rnd.random() < 0.15 else rand_valid(rnd, dt['el']) for _ in range(2)]
+        if r < 0.3:
+            xs = xs[:-1] if rnd.random() < 0.5 else xs + [num(1)]
+        elif r < 0.75 and all(x['k'] in ('num', 'eps', 'frac') for x in xs):
+            xs.sort(key=lambda x: 4 * x['n'] + {'num': 0, 'eps': 1, 'frac': 2}[x['k']])     # else: maybe inverted
+        return {'k': 'list', 'xs': xs}
+    if t == 'scaled':
+        t = 'int'
     if t in ('int', 'double'):
         if r < 0.3:
             return num(rnd.choice([dt['lo'] - 1, dt['lo'], dt['hi'], dt['hi'] + 1, dt['hi'] + 2]))
@@ -679,13 +871,14 @@ def rand_shape(rnd):
         attrs = rnd.sample(['target', 'value', 'pa', 'pb', 'ramp', 'pq'], rnd.randint(2, 4))
         for attr in attrs:
             dt = rand_dt(rnd)
-            numeric = dt['t'] in ('double', 'int')
+            numeric = dt['t'] in ('double', 'int', 'scaled')
             r = rnd.random()
             from frappy.params import PREDEFINED_ACCESSIBLES
             auto = attr if attr in PREDEFINED_ACCESSIBLES else '_' + attr
             wire = auto if r < 0.7 else ('' if r < 0.85 else 'x_' + attr)
             q = rnd.random()
-            ro, const = q < 0.15, (rand_valid(rnd, dt) if 0.15 <= q < 0.25 else NULL)
+            # (constants of scaled / blob parameters: shapes K of the family, a known defect of Parameter.finish)
+            ro, const = q < 0.15, (rand_valid(rnd, dt) if 0.15 <= q < 0.25 and dt['t'] not in ('scaled', 'blob') else NULL)
             if const != NULL:
                 ro = True
             lim = {'kind': 'none'}
@@ -695,7 +888,7 @@ def rand_shape(rnd):
                 pre = attr if attr in PREDEFINED_ACCESSIBLES else '_' + attr
                 if k == 'limits':
                     lim = {'kind': 'limits', 'both': attr + '_limits'}
-                    accs[attr + '_limits'] = _limpar(pre + '_limits', {'t': 'tuple', 'els': [dt, dt]},
+                    accs[attr + '_limits'] = _limpar(pre + '_limits', {'t': 'limits', 'el': dt},
                                                     {'k': 'list', 'xs': [num(dt['lo']), num(dt['hi'])]}, level)
                 else:
                     lim = {'kind': 'minmax', 'lo': '', 'hi': ''}
@@ -715,28 +908,54 @@ def rand_shape(rnd):
                     hooks.append({'at': 'LIMIT'})
             accs[attr] = {'kind': 'param', 'wire': wire, 'dt': dt, 'ro': ro, 'const': const,
                           'init': rand_valid(rnd, dt), 'lim': lim, 'hooks': hooks,
-                          'drv': rnd.choice(['absent', 'none', 'none', 'same', 'fixed']),
-                          'ret': rand_valid(rnd, dt), 'islimit': False, 'level': level}
+                          'drv': rnd.choice(['absent', 'none', 'none', 'same', 'fixed', 'fixed', 'raise']),
+                          'ret': rand_valid(rnd, dt), 'rd': 'fixed' if const == NULL and rnd.random() < 0.25 else 'absent',
+                          'rret': rand_valid(rnd, dt), 'islimit': False, 'level': level}
+            acc = accs[attr]
+            for lname in [x for x in (lim.get('lo'), lim.get('hi'), lim.get('both')) if x]:
+                if rnd.random() < 0.3:        # the limit is given in the configuration
+                    accs[lname]['initvia'] = 'cfgvalue'
+                    accs[lname]['init'] = rand_valid(rnd, accs[lname]['dt'])
+            # where the final accessible comes from: the class alone, a re-declaration in a subclass, the configuration
+            if const == NULL:
+                acc['initvia'] = rnd.choice(['default', 'default', 'value', 'bare', 'cfgvalue', 'cfgdefault'])
+            if rnd.random() < 0.3:
+                what = rnd.choice(['ro', 'wire'] + (['hi'] if numeric else []))
+                acc['via'] = rnd.choice(['cfg', 'subclass'])
+                if what == 'ro' and const == NULL:
+                    acc['cls'] = {'ro': not ro}
+                elif what == 'wire':
+                    acc['cls'] = {'wire': rnd.choice([w for w in (auto, '', 'z_' + attr) if w != wire])}
+                elif what == 'hi':
+                    acc['cls'] = {'hi': dt['hi'] + rnd.randint(1, 2)}
+                if acc.get('cls') and acc['via'] == 'subclass' and acc.get('initvia') == 'bare':
+                    acc['initvia'] = 'value'      # one assignment per class body
         for attr in rnd.sample(['go', 'stop', 'ca', 'cb'], rnd.randint(1, 2)):
             r = rnd.random()
             auto = attr if attr in ('go', 'stop') else '_' + attr
+            q = rnd.random()
+            leaf = ('double', 'int', 'enum', 'string', 'bool', 'scaled')
             accs[attr] = {'kind': 'cmd', 'wire': auto if r < 0.75 else ('' if r < 0.9 else 'y_' + attr),
-                          'arg': {'t': 'none'} if rnd.random() < 0.3 else rand_dt(rnd),
-                          'ret': num(rnd.randint(0, 5)) if rnd.random() < 0.5 else NULL}
+                          'arg': {'t': 'none'} if q < 0.3 else
+                                 {'t': 'tuple', 'els': [rand_dt(rnd, 0, leaf) for _ in range(rnd.randint(2, 3))]} if q < 0.45
+                                 else rand_dt(rnd),
+                          'ret': num(rnd.randint(0, 5)) if rnd.random() < 0.5 else NULL,
+                          'override': rnd.random() < 0.2}
         first = next(a for a, x in accs.items() if x['kind'] == 'param' and not x.get('islimit'))
         if not accs[first]['wire']:           # every module exports at least one parameter
             accs[first]['wire'] = first if first in PREDEFINED_ACCESSIBLES else '_' + first
-        cand = [a for a, x in accs.items() if x['wire'] and not x.get('islimit') and a != first]
-        if cand and rnd.random() < 0.3:      # hidden by the configuration: <attr> = Param(export=False)
-            x = accs[rnd.choice(cand)]
-            x['cls_wire'], x['wire'] = x['wire'], ''
+            if (accs[first].get('cls') or {}).get('wire') == accs[first]['wire']:
+                del accs[first]['cls']
+        if not accs[first]['wire']:
+            raise MachineryError('rand_shape')
         shape[mname] = accs
     return shape
 
 
 def _limpar(wire, dt, init, level='X'):
     return {'kind': 'param', 'wire': wire, 'dt': dt, 'ro': False, 'const': NULL, 'init': init,
-            'lim': {'kind': 'none'}, 'hooks': [], 'drv': 'absent', 'ret': NULL, 'islimit': True, 'level': level}
+            'lim': {'kind': 'none'}, 'hooks': [], 'drv': 'absent', 'ret': NULL, 'rd': 'absent', 'rret': NULL,
+            'islimit': True, 'level': level}
 
 
 def rand_request(rnd, shape, cache):
@@ -747,18 +966,22 @@ def rand_request(rnd, shape, cache):
         return {'act': act, 'mod': rnd.choice(['zz', 'h']), 'name': rnd.choice(['target', '_pa', 'go']),
                 'payload': NULL if act == 'read' else rnd.choice([NULL, num(1)])}
     m = rnd.choice(mods)
+    if r < 0.12:       # the bare module specifier, and accessibles that must not exist
+        act = rnd.choice(['change', 'read'])
+        if rnd.random() < 0.5:
+            tg = next((x for x in shape[m].values() if x['wire'] == ('target' if act == 'change' else 'value')), None)
+            return {'act': act, 'mod': m, 'name': '', 'payload': NULL if act == 'read' else
+                    rand_payload(rnd, tg['dt']) if tg and tg['kind'] == 'param' else num(1)}
+        act = rnd.choice(['change', 'read', 'do'])
+        return {'act': act, 'mod': m, 'name': rnd.choice(['_popt', 'popt', '_copt', '_prem', 'prem']),
+                'payload': num(1) if act == 'change' else NULL}
     a = rnd.choice(list(shape[m]))
     acc = shape[m][a]
-    name = acc['wire'] if acc['wire'] and rnd.random() < 0.93 else rnd.choice([a, 'nope', acc.get('cls_wire', a)])
+    name = acc['wire'] if acc['wire'] and rnd.random() < 0.93 else rnd.choice([a, 'nope', (acc.get('cls') or {}).get('wire', a)])
     q = rnd.random()
     if acc['kind'] == 'param':
         act = 'read' if q < 0.12 else 'do' if q < 0.16 else 'change'
-        if acc['const'] != NULL and act == 'read':
-            act = 'change'         # reading a constant belongs to C06
         payload = NULL if act != 'change' else rand_payload(rnd, acc['dt'])
-        if act == 'change' and acc.get('islimit') and acc['dt']['t'] == 'tuple' and payload['k'] == 'list' \
-                and len(payload['xs']) == 2 and all(x['k'] in ('num', 'eps', 'frac') for x in payload['xs']):
-            payload['xs'].sort(key=lambda x: 4 * x['n'] + {'num': 0, 'eps': 1, 'frac': 2}[x['k']])  # inverted pairs: C18
     else:
         act = 'change' if q < 0.05 else 'read' if q < 0.1 else 'do'
         payload = NULL if act == 'read' else num(1) if act == 'change' else \
